@@ -40,4 +40,9 @@ def run(chk):
     common.arg_agreement_rule(chk, P, "C06", [("emit_batcher", None)], 3)
     from . import witness
     witness.witness_rule(chk, "C06", 5)
+    if not getattr(chk, "_overlay", None):
+        common.linear_types_rule(chk, P, "C06.R4:halves-are-linear", "the channel halves cannot be copied (dropping one copy would close the channel under the other)",
+                                 {"emit_batcher::Sender": "Drop for Sender closes the channel: the first copy dropped stops the receiver while the others still send, "
+                                                          "their items are discarded and a flush reports success at once",
+                                  "emit_batcher::Receiver": "two receivers would take batches concurrently and both clear is_in_batch"})
     return chk
